@@ -186,6 +186,39 @@ PROPS = {
         trusted_base=["libp2p streams and pubsub are replaced by scripted fakes (delivery over real streams is runtime, not modelled)", "pubsubraw adapter not covered (needs a real libp2p pubsub)"],
         assumptions=["duplicate-free membership snapshots for the exactly-once clause"],
     ),
+    "C16": dict(
+        module="OrbitModel.Properties.C16",
+        theorems=["Orbit.C16.received_is_prefix_of_emitted", "Orbit.C16.nothing_lost_while_alive",
+                  "Orbit.C16.slow_reader_eventually_gets_everything", "Orbit.C16.write_event_not_ahead_of_state",
+                  "Orbit.C16.pinned_tree_reorders"],
+        families=[("events", 80, 2500, 8)],
+        corr_fields={"values", "idx"},
+        nontrivial=lambda lines: sum(1 for l in lines if l.startswith("event ")) >= 2 or sum(1 for l in lines if l.startswith("eread ")) >= 3,
+        rule="(a) writes and replications on 2-3 replicas with a bus subscriber per replica that queries the store from inside its handler: every write/replicated event's entries must already be listed and the index must equal the replay of that listing; exactly one write event per acknowledged local write; (b) the real legacy EventEmitter with 1-2 subscribers reading at PRNG pace (bursts of up to 30 events against the 16-slot buffer) and the drainer held between dequeue and send by the hook: everything read must be 1,2,3,... in order, complete at the end; non-trivial = >= 2 store events or >= 3 reads",
+        trusted_base=["libp2p eventbus: FIFO per subscriber, blocking emit (not modelled)", "goroutine steps of the emitter are atomic under its mutex (assumed)"],
+        assumptions=[],
+    ),
+    "C17": dict(
+        module="OrbitModel.Properties.C17",
+        theorems=["Orbit.C17.every_acknowledged_write_is_recoverable", "Orbit.C17.protocol_invariant", "Orbit.C17.pinned_tree_loses_acknowledged_write"],
+        families=[("concurrent", 60, 1500, 6)],
+        corr_fields={"values", "heads", "idx", "len", "local", "load"},
+        nontrivial=lambda lines: any(l.startswith("cacks ") for l in lines),
+        rule="2-8 goroutines write to one store at once (1-3 rounds); the hook after the log append holds each writer and they are released to the head-cache put oldest-first, newest-first or in a PRNG permutation; acknowledged entries must be pairwise distinct and listed; then a fresh instance on the same keystore and cache loads the database: every acknowledged write must be listed and the cached local head must be the newest entry",
+        trusted_base=["Model/Writers.lean (append atomic under the log lock; append+put atomic under the write mutex) — goroutine atomicity assumed"],
+        assumptions=[],
+    ),
+    "C18": dict(
+        module="OrbitModel.Properties.C18",
+        theorems=["Orbit.C18.close_is_idempotent", "Orbit.C18.second_close_is_noop", "Orbit.C18.event_channel_always_shuts_down",
+                  "Orbit.C18.closed_only_when_done", "Orbit.C18.pinned_tree_leaks_goroutine"],
+        families=[("close", 80, 2000, 6), ("events", 30, 600, 6)],
+        corr_fields={"afterclose", "values", "load"},
+        nontrivial=lambda lines: any(l.startswith("closed ") for l in lines) or any(l.startswith("eclosed ") for l in lines),
+        rule="Close called twice on a store that is idle, has a replication held mid-fetch at the gate, or has just taken a burst of concurrent writes; then every operation on the closed store under a 1 s deadline (must not panic or hang), a fresh instance + Load (own acknowledged writes must be listed), Drop of one of two databases (only its local data may disappear), and a census of store-layer goroutines once every store is closed (must be back to the scenario's baseline); legacy event channels must close after their context ends, also with the drainer held before Wait() by the hook",
+        trusted_base=["goroutine termination, absence of hangs and directory effects are runtime facts: sampled by the harness, not proved", "in-memory caches stand for leveldb directories"],
+        assumptions=[],
+    ),
     "C19": dict(
         module="OrbitModel.Properties.C19",
         theorems=["Orbit.C19.never_regresses", "Orbit.C19.progress_le_max", "Orbit.C19.at_rest_equals_len",
@@ -203,6 +236,18 @@ _TIE = ("Lean 4 theorems about a hand-written model + correspondence harness: th
         "PRNG histories and the compiled Lean driver replays every operation through the model and evaluates the "
         "property's L1 predicate on the implementation's own observations")
 MANIFEST_TEXT = {
+    "C16": dict(
+        text="Kernel-checked theorems over the two-goroutine transition system of the legacy event channel, for every capacity and EVERY interleaving: what a subscriber has received is always a prefix of what was emitted (no reordering, duplication or gap), nothing is lost while its context lives, and a reader that keeps reading gets everything; the write path updates the view before it acknowledges/emits. The pinned reordering is a decide-checked witness replayed on the real emitter with a hook before the fix: commit. The harness queries stores from inside bus handlers and drives the real emitter with slow readers and a held drainer.",
+        note="Partial: the libp2p eventbus (FIFO per subscriber, blocking emit) and Go's scheduling are assumed; goroutine steps are atomic under the emitter mutex.",
+        technique="Lean 4 proof (pipeline invariant delivered ++ in-transit = emitted over all schedules) with hook-driven differential harness"),
+    "C17": dict(
+        text="Kernel-checked theorem for every number of writers and EVERY interleaving of their steps: each acknowledged write lies in the ancestry of the cached head (so close, reopen, load finds it), via an explicit protocol invariant of the write mutex; the pinned tree loses an acknowledged write on the 4-step schedule append1 append2 put2 put1 (decide-checked, replayed on the real store with the two write-path hooks before the fix: commit). The harness runs 2-8 goroutines with scripted put orders, then restarts.",
+        note="Trusted: Lean kernel + standard axioms; the writers model abstracts the log to its length (entry k's ancestry is 1..k, from C01/C05); atomicity of the locked sections is assumed.",
+        technique="Lean 4 proof (mutex protocol invariant over all schedules) with hook-steered concurrent harness"),
+    "C18": dict(
+        text="Kernel-checked: the tear-down runs at most once under any sequence of Close/Drop/other calls and later calls return; the legacy event channel shuts down from EVERY reachable state once its context ends (and is closed only after both goroutines are done); the pinned lost wake-up is proved to hang for ever (replayed with a hook before the fix: commit). Reopening with all acknowledged data is C05's theorem. The harness closes stores idle / mid-replication / after concurrent bursts, calls every operation on the closed store under a deadline, takes a goroutine census, drops one of several databases.",
+        note="Partial by nature: goroutine termination, hangs and OS-level directory effects are runtime facts sampled by the harness (census, deadlines), not proved; Drop's scope is checked on the in-memory cache manager that stands for the leveldb directories.",
+        technique="Lean 4 proof (lifecycle state machine; emitter shutdown invariant) with deadline/census-based harness"),
     "C09": dict(
         text="Kernel-checked theorem over a bus model of the instance: an event originating in one database (write, load-added, merged batch) leaves every other store of the instance exactly as it was (contents, index, status, emitted events, published messages), and whatever a store publishes carries its own address; the pinned tree's cross-talk is refuted by a decide-checked witness reproduced on the real stores before the fix: commit. The harness opens 2-4 databases on shared instances and checks isolation of contents, status, per-address event counters and announcement channels after every step.",
         note="Trusted: Lean kernel + standard axioms; the bus model (broadcast to every listener; which listeners filter on what) is hand-written from base_store.go and validated by the multidb family; runtime delivery timing of the libp2p eventbus is sampled, not proved.",
